@@ -116,7 +116,7 @@ Proof.
   apply String.eqb_eq in Ht. apply Z.eqb_eq in Hlo. apply Z.eqb_eq in Hnlo.
   apply Z.leb_le in Hnhi. apply Z.leb_le in Hhi0.
   apply negb_true_iff in Hl1. apply Z.eqb_neq in Hl1. apply negb_true_iff in Htn.
-  exists lo, hi, nhi. subst t nlo. constructor; auto.
+  exists lo, hi, nhi. subst t nlo. constructor; try assumption.
   - apply orb_true_iff in Hhi. destruct Hhi as [Hhi|Hhi].
     + left. apply Z.eqb_eq in Hhi. exact Hhi.
     + right. apply andb_true_iff in Hhi. destruct Hhi as [Ha Hb].
@@ -179,19 +179,34 @@ Proof. destruct omx; vm_compute; reflexivity. Qed.
 Lemma in_ty_range ty n lo hi : ty_range ty = Some (lo, hi) -> (in_ty ty n <-> lo <= n <= hi).
 Proof. intros E. unfold in_ty. rewrite E. tauto. Qed.
 
+Ltac tyr H :=
+  match type of H with
+  | in_ty ?s ?n =>
+      let r := eval vm_compute in (ty_range s) in
+      match r with Some (?lo, ?hi) => apply (proj1 (in_ty_range s n lo hi eq_refl)) in H end
+  end.
+
+Lemma base_ty_cases f :
+  (f = Some "uint64" /\ base_ty f = "u64") \/
+  In (base_ty f) ["i8"; "u8"; "i16"; "u16"; "i32"; "u32"; "i64"].
+Proof.
+  destruct f as [s|]; [|right; cbn; tauto].
+  unfold base_ty, fmt_type.
+  repeat match goal with
+  | |- context [if String.eqb s ?c then _ else _] =>
+      destruct (String.eqb_spec s c) as [->|_]; [cbn [In]; tauto|]
+  end.
+  right; cbn; tauto.
+Qed.
+
 Lemma in_base_bounds f n :
   in_base f n ->
   (- 2^63 <= n <= 2^63 - 1) \/ (f = Some "uint64" /\ 0 <= n <= 2^64 - 1).
 Proof.
-  unfold in_base, base_ty. destruct f as [s|].
-  - unfold fmt_type.
-    repeat match goal with
-    | |- in_ty (match (if String.eqb s ?c then _ else _) with _ => _ end) _ -> _ =>
-        destruct (String.eqb_spec s c) as [->|_];
-        [ intros H; apply (proj1 (in_ty_range _ n _ _ eq_refl)) in H; try (left; lia); right; split; [reflexivity|lia] |]
-    end.
-    intros H; apply (proj1 (in_ty_range _ n _ _ eq_refl)) in H. left; lia.
-  - intros H; apply (proj1 (in_ty_range _ n _ _ eq_refl)) in H. left; lia.
+  unfold in_base. destruct (base_ty_cases f) as [[-> E]|E].
+  - rewrite E. intros H. tyr H. right. split; [reflexivity|lia].
+  - cbn [In] in E. intros H.
+    destruct E as [E|[E|[E|[E|[E|[E|[E|[]]]]]]]]; rewrite <- E in H; tyr H; left; lia.
 Qed.
 
 Lemma base_u64 n : in_base (Some "uint64") n <-> 0 <= n <= 2^64 - 1.
@@ -355,9 +370,9 @@ Proof.
         destruct (rf_hi _ _ _ _ F) as [?|[? ?]]; lia.
       * intros _. destruct (znorm_min b), (znorm_max b); split; discriminate.
       * intros (Hf64 & Hemn & Hemx & Hn). apply HF6.
-        inversion Hf64; subst f.
+        inversion Hf64 as [Hf']. rewrite Hf' in Hf.
         assert (Hty : z_ty r = "u64").
-        { pose proof (rf_fmt _ _ _ _ F) as Hft. rewrite Hf in Hft. vm_compute in Hft. inversion Hft. reflexivity. }
+        { pose proof (rf_fmt _ _ _ _ F) as Hft. rewrite Hf in Hft. change (fmt_type "uint64") with (Some "u64") in Hft. inversion Hft. reflexivity. }
         pose proof (rf_ty _ _ _ _ F) as Hr. rewrite Hty in Hr. vm_compute in Hr. inversion Hr; subst lo hi.
         repeat split; try (exact (proj1 Ha) || exact (proj1 (proj2 Ha)) ||
                            exact (proj1 (proj2 (proj2 Ha))) || exact (proj2 (proj2 (proj2 Ha)))).
@@ -371,4 +386,239 @@ Proof.
   - refine (zgeneral_fits _ _ _ _ _ _ Hc Hmn Hmx Hb _ _).
     + intros (f & t & -> & Ht). apply find_row_none in Hrow. rewrite Hrow in Ht. discriminate Ht.
     + intros (-> & _). vm_compute in Hrow. discriminate Hrow.
+Qed.
+
+(* the exception is real: finding C10-F6 on the model (minimum -2^63, maximum
+   2^63 are the doubles schemars stores for i64::MIN and i64::MAX) *)
+Definition f6_bounds : zbounds :=
+  {| zb_min := Some (- 2^63); zb_max := Some (2^63); zb_emin := None; zb_emax := None; zb_mult := false |}.
+
+Lemma int_fits_Z_refuted_F6 :
+  exists fmt b d ty n,
+    choose_integer_Z fmt b d = Chosen ty /\ known_F6b fmt b = true /\
+    admittedZb b n = true /\ in_base fmt n /\ ~ in_ty ty n.
+Proof.
+  exists (Some "uint64"), f6_bounds, None, "i64", (2^63).
+  split; [vm_compute; reflexivity|]. split; [vm_compute; reflexivity|]. split; [vm_compute; reflexivity|].
+  split; [apply base_u64; lia | rewrite in_i64; lia].
+Qed.
+
+(* ... and it is the whole class: on every F6 input whose default (if any)
+   passes, i64 is chosen and 2^63 is an admitted value of the format that does
+   not fit *)
+Lemma F6_class_fails fmt b :
+  Known_F6 fmt b -> zb_mult b = false ->
+  choose_integer_Z fmt b None = Chosen "i64" /\
+  admittedZ b (2^63) /\ in_base fmt (2^63) /\ ~ in_ty "i64" (2^63).
+Proof.
+  intros (-> & Hmn & Hmx & Ha) Hmu. split; [|split; [exact Ha|split; [apply base_u64; lia | rewrite in_i64; lia]]].
+  unfold choose_integer_Z. rewrite Hmn, Hmx, Hmu. vm_compute. reflexivity.
+Qed.
+
+(* ---- NonZero only if zero is excluded ---- *)
+
+Lemma nonzero_ty_name ty : nonzero_ty ty <-> nz_name ty = true.
+Proof.
+  unfold nonzero_ty, nz_name. cbn [In]. repeat rewrite orb_true_iff. repeat rewrite String.eqb_eq.
+  split; [intros [H|[H|[H|[H|[]]]]]; subst; tauto | intros [[[H|H]|H]|H]; subst; tauto].
+Qed.
+
+Lemma zgeneral_nonzero fmt d omn omx ty :
+  zgeneral fmt d omn omx = Chosen ty -> nz_name ty = true -> omn = Some 1.
+Proof.
+  intros Hc Hnz. unfold zgeneral in Hc. destruct (zdefault_in d omn omx); [|discriminate Hc].
+  destruct (zfit_type omn omx) as [t|] eqn:Hfit.
+  - inversion Hc; subst t; clear Hc. destruct omn as [mn|].
+    + destruct (Z.eq_dec mn 1) as [->|Hne]; [reflexivity|exfalso]. apply Z.eqb_neq in Hne.
+      destruct omx as [mx|]; cbn [zfit_type] in Hfit; apply find_map_some in Hfit;
+        destruct Hfit as (r & Hin & Hr); rewrite Hne in Hr; apply in_rev in Hin;
+        destruct (row_facts_of r Hin) as (lo & hi & nhi & F); pose proof (rf_tynz _ _ _ _ F) as Ht;
+        destruct (_ && _); inversion Hr; subst ty; congruence.
+    + exfalso. destruct omx as [mx|]; cbn [zfit_type] in Hfit; [|discriminate Hfit].
+      apply find_map_some in Hfit. destruct Hfit as (r & Hin & Hr). apply in_rev in Hin.
+      destruct (row_facts_of r Hin) as (lo & hi & nhi & F). pose proof (rf_tynz _ _ _ _ F) as Ht.
+      destruct (_ && _); inversion Hr; subst ty; congruence.
+  - exfalso. destruct (match fmt with Some f => String.eqb f "uint64" | None => false end).
+    + destruct d as [[v|]|]; [destruct (v <? 0); [discriminate Hc|] | |]; inversion Hc; subst ty; discriminate Hnz.
+    + inversion Hc; subst ty; discriminate Hnz.
+Qed.
+
+Lemma nonzero_needs_min_one fmt b d ty :
+  choose_integer_Z fmt b d = Chosen ty -> nonzero_ty ty -> znorm_min b = Some 1.
+Proof.
+  intros Hc Hnz. apply nonzero_ty_name in Hnz. unfold choose_integer_Z in Hc.
+  destruct (match fmt with Some f => find (fun r => String.eqb (z_fmt r) f) int_formats_Z | None => None end)
+    as [r|] eqn:Hrow.
+  - destruct fmt as [f|]; [|discriminate Hrow].
+    apply find_row_some in Hrow. destruct Hrow as [Hin Hf].
+    destruct (row_facts_of r Hin) as (lo & hi & nhi & F).
+    destruct (negb (zb_mult b) && _ && _).
+    + destruct (match d with Some (Some v) => _ | _ => false end); [discriminate Hc|].
+      destruct (zis_one (znorm_min b)) eqn:H1; inversion Hc; subst ty.
+      * unfold zis_one in H1. destruct (znorm_min b) as [m|]; [|discriminate H1].
+        apply Z.eqb_eq in H1. subst m. reflexivity.
+      * rewrite (rf_tynz _ _ _ _ F) in Hnz. discriminate Hnz.
+    + apply zgeneral_nonzero in Hc; [|exact Hnz]. destruct (znorm_min b); [exact Hc|].
+      inversion Hc. exfalso. exact (rf_lo1 _ _ _ _ F H0).
+  - exact (zgeneral_nonzero _ _ _ _ _ Hc Hnz).
+Qed.
+
+Lemma nonzero_only_if_zero_excluded_Z fmt b d ty :
+  choose_integer_Z fmt b d = Chosen ty -> nonzero_ty ty -> ~ admittedZ b 0.
+Proof.
+  intros Hc Hnz. apply znorm_min_one_excludes_zero. exact (nonzero_needs_min_one _ _ _ _ Hc Hnz).
+Qed.
+
+(* ---- defaults: what convert_integer itself rejects (add-time check inside
+        convert_integer only; the later range check of a default against the
+        chosen Rust type, typify commit 07af100, is outside this model) ---- *)
+
+Definition exact_path (r : zrow) (b : zbounds) : bool :=
+  negb (zb_mult b)
+  && match znorm_min b with None => true | Some m => m >=? z_lo r end
+  && match znorm_max b with None => true | Some m => m <=? z_hi r end.
+
+Definition row_of (fmt : option string) : option zrow :=
+  match fmt with Some f => find (fun r => String.eqb (z_fmt r) f) int_formats_Z | None => None end.
+
+Lemma zgeneral_default_bounds fmt v omn omx ty :
+  zgeneral fmt (Some (Some v)) omn omx = Chosen ty -> ole omn v /\ oge omx v.
+Proof.
+  unfold zgeneral, zdefault_in, ole, oge. intros H.
+  destruct omn as [mn|], omx as [mx|];
+    repeat match type of H with (if ?c then _ else _) = _ => destruct c eqn:?; [|discriminate H] end;
+    repeat match goal with
+    | E : (_ && _) = true |- _ => apply andb_true_iff in E; destruct E
+    | E : (_ >=? _) = true |- _ => apply Z.geb_le in E
+    | E : (_ <=? _) = true |- _ => apply Z.leb_le in E
+    end; split; intros m Hm; inversion Hm; subst; lia.
+Qed.
+
+(* (1) a numeric default below the normalised minimum or above the normalised
+       maximum is rejected, whatever the format and the path;
+   (2) on the exact-format path a default outside the format's limits (as doubles)
+       is rejected;
+   (3) off the exact path the format's limit is enforced only on a side the
+       schema leaves unbounded;
+   (4) an accepted default with chosen type u64 is never negative (this covers
+       the u64 fallback of `format: uint64`);
+   (5) a non-numeric default is rejected everywhere but on the exact path *)
+Lemma default_out_of_range_rejected_Z fmt b v :
+  ((exists m, znorm_min b = Some m /\ v < m) \/ (exists m, znorm_max b = Some m /\ m < v) ->
+     choose_integer_Z fmt b (Some (Some v)) = ErrInvalidValue) /\
+  (forall r, row_of fmt = Some r -> exact_path r b = true -> v < z_lo r \/ z_hi r < v ->
+     choose_integer_Z fmt b (Some (Some v)) = ErrInvalidValue) /\
+  (forall r, row_of fmt = Some r -> exact_path r b = false ->
+     (znorm_min b = None /\ v < z_lo r) \/ (znorm_max b = None /\ z_hi r < v) ->
+     choose_integer_Z fmt b (Some (Some v)) = ErrInvalidValue) /\
+  (choose_integer_Z fmt b (Some (Some v)) = Chosen "u64" -> 0 <= v) /\
+  (forall ty, choose_integer_Z fmt b (Some None) = Chosen ty ->
+     exists r, row_of fmt = Some r /\ exact_path r b = true).
+Proof.
+  unfold choose_integer_Z. fold (row_of fmt).
+  destruct (row_of fmt) as [r|] eqn:Hrow.
+  - fold (exact_path r b). unfold row_of in Hrow. destruct fmt as [f|]; [|discriminate Hrow].
+    apply find_row_some in Hrow. destruct Hrow as [Hin Hf].
+    destruct (row_facts_of r Hin) as (lo & hi & nhi & F).
+    destruct (exact_path r b) eqn:Hex.
+    + repeat split.
+      * intros [(m & Hm & Hlt)|(m & Hm & Hlt)]; rewrite Hm.
+        -- replace (v <? m) with true by (symmetry; apply Z.ltb_lt; lia).
+           rewrite !orb_true_r. cbn. reflexivity.
+        -- replace (v >? m) with true by (symmetry; apply Z.gtb_lt; lia).
+           rewrite !orb_true_r. reflexivity.
+      * intros r' Hr' _ [Hlt|Hlt]; inversion Hr'; subst r'.
+        -- replace (v <? z_lo r) with true by (symmetry; apply Z.ltb_lt; lia). reflexivity.
+        -- replace (v >? z_hi r) with true by (symmetry; apply Z.gtb_lt; lia). rewrite orb_true_r. reflexivity.
+      * intros r' Hr' Hd. inversion Hr'; subst r'. rewrite Hex in Hd. discriminate Hd.
+      * intros Hc. destruct (_ || _) eqn:Hbad in Hc; [discriminate Hc|].
+        repeat (apply orb_false_iff in Hbad; destruct Hbad as [Hbad ?]). apply Z.ltb_ge in Hbad.
+        destruct (zis_one (znorm_min b)) eqn:Hone; inversion Hc as [Hty].
+        -- exfalso. pose proof (rf_nznz _ _ _ _ F) as Hn. rewrite Hty in Hn. discriminate Hn.
+        -- pose proof (rf_ty _ _ _ _ F) as Hr. rewrite Hty in Hr. vm_compute in Hr. inversion Hr; subst lo hi.
+           rewrite (rf_lo _ _ _ _ F) in Hbad. exact Hbad.
+      * intros ty _. exists r. split; [reflexivity | exact Hex].
+    + repeat split.
+      * intros [(m & Hm & Hlt)|(m & Hm & Hlt)];
+          (destruct (zgeneral _ _ _ _) as [ty|] eqn:Hc; [|reflexivity]); exfalso;
+          apply zgeneral_default_bounds in Hc; destruct Hc as [H1 H2]; rewrite Hm in *.
+        -- specialize (H1 _ eq_refl). lia.
+        -- specialize (H2 _ eq_refl). lia.
+      * intros r' Hr' Hd. inversion Hr'; subst r'. rewrite Hex in Hd. discriminate Hd.
+      * intros r' Hr' _ [[Hn Hlt]|[Hn Hlt]]; inversion Hr'; subst r'; rewrite Hn;
+          (destruct (zgeneral _ _ _ _) as [ty|] eqn:Hc; [|reflexivity]); exfalso;
+          apply zgeneral_default_bounds in Hc; destruct Hc as [H1 H2].
+        -- specialize (H1 _ eq_refl). lia.
+        -- specialize (H2 _ eq_refl). lia.
+      * intros Hc. pose proof (zgeneral_default_bounds _ _ _ _ _ Hc) as [H1 H2].
+        unfold zgeneral in Hc. destruct (zdefault_in _ _ _); [|discriminate Hc].
+        destruct (zfit_type _ _) as [t|] eqn:Hfit.
+        -- inversion Hc; subst t; clear Hc.
+           match type of Hfit with zfit_type ?a ?c = _ =>
+             assert (Hmn : exists mn, a = Some mn) by (destruct (znorm_min b); eexists; reflexivity);
+             assert (Hmx : exists mx, c = Some mx) by (destruct (znorm_max b); eexists; reflexivity)
+           end.
+           destruct Hmn as [mn Hmn]. rewrite Hmn in *. specialize (H1 _ eq_refl).
+           destruct (Z.eq_dec mn 1) as [->|Hne]; [lia|]. apply Z.eqb_neq in Hne.
+           destruct Hmx as [mx Hmx]. rewrite Hmx in *. cbn [zfit_type] in Hfit.
+           apply find_map_some in Hfit. destruct Hfit as (r' & Hin' & Hr'). rewrite Hne in Hr'. apply in_rev in Hin'.
+           destruct (row_facts_of r' Hin') as (lo' & hi' & nhi' & F').
+           destruct ((z_hi r' =? mx) && (z_lo r' =? mn)) eqn:E; [|discriminate Hr'].
+           inversion Hr' as [Hty]. apply andb_true_iff in E. destruct E as [_ E]. apply Z.eqb_eq in E.
+           pose proof (rf_ty _ _ _ _ F') as Hr. rewrite Hty in Hr. vm_compute in Hr. inversion Hr; subst lo' hi'.
+           rewrite (rf_lo _ _ _ _ F') in E. lia.
+        -- destruct (String.eqb f "uint64"); [|discriminate Hc].
+           destruct (v <? 0) eqn:Hv; [discriminate Hc|]. apply Z.ltb_ge in Hv. exact Hv.
+      * intros ty Hc. exfalso. unfold zgeneral, zdefault_in in Hc. discriminate Hc.
+  - repeat split.
+    + intros [(m & Hm & Hlt)|(m & Hm & Hlt)];
+        (destruct (zgeneral _ _ _ _) as [ty|] eqn:Hc; [|reflexivity]); exfalso;
+        apply zgeneral_default_bounds in Hc; destruct Hc as [H1 H2].
+      * specialize (H1 _ Hm). lia.
+      * specialize (H2 _ Hm). lia.
+    + intros r Hr. discriminate Hr.
+    + intros r Hr. discriminate Hr.
+    + intros Hc. pose proof (zgeneral_default_bounds _ _ _ _ _ Hc) as [H1 H2].
+      unfold zgeneral in Hc. destruct (zdefault_in _ _ _); [|discriminate Hc].
+      destruct (zfit_type _ _) as [t|] eqn:Hfit.
+      * inversion Hc; subst t; clear Hc. destruct (znorm_min b) as [mn|].
+        -- specialize (H1 _ eq_refl).
+           destruct (Z.eq_dec mn 1) as [->|Hne]; [lia|]. apply Z.eqb_neq in Hne.
+           destruct (znorm_max b) as [mx|]; cbn [zfit_type] in Hfit;
+             apply find_map_some in Hfit; destruct Hfit as (r' & Hin' & Hr'); rewrite Hne in Hr'; apply in_rev in Hin';
+             destruct (row_facts_of r' Hin') as (lo' & hi' & nhi' & F');
+             (destruct (_ && _) eqn:E in Hr'; [|discriminate Hr']);
+             inversion Hr' as [Hty]; apply andb_true_iff in E; destruct E as [E1 E2];
+             pose proof (rf_ty _ _ _ _ F') as Hr; rewrite Hty in Hr; vm_compute in Hr; inversion Hr; subst lo' hi';
+             pose proof (rf_lo _ _ _ _ F') as Hlo.
+           ++ apply Z.eqb_eq in E2. lia.
+           ++ apply Z.eqb_eq in E1. lia.
+        -- exfalso. destruct (znorm_max b) as [mx|]; cbn [zfit_type] in Hfit; [|discriminate Hfit].
+           apply find_map_some in Hfit; destruct Hfit as (r' & Hin' & Hr'); apply in_rev in Hin'.
+           destruct (row_facts_of r' Hin') as (lo' & hi' & nhi' & F').
+           destruct (_ && _) eqn:E in Hr'; [|discriminate Hr'].
+           inversion Hr' as [Hty]. apply andb_true_iff in E. destruct E as [E1 E2]. apply Z.leb_le in E2.
+           pose proof (rf_ty _ _ _ _ F') as Hr. rewrite Hty in Hr. vm_compute in Hr. inversion Hr; subst lo' hi'.
+           pose proof (rf_lo _ _ _ _ F') as Hlo. lia.
+      * destruct (match fmt with Some f => String.eqb f "uint64" | None => false end); [|discriminate Hc].
+        destruct (v <? 0) eqn:Hv; [discriminate Hc|]. apply Z.ltb_ge in Hv. exact Hv.
+    + intros ty Hc. exfalso. unfold zgeneral, zdefault_in in Hc. discriminate Hc.
+Qed.
+
+(* ---- never narrower than the format ---- *)
+
+Lemma never_narrower_than_format fmt :
+  choose_integer_Z fmt no_bounds None = Chosen (base_ty fmt).
+Proof.
+  destruct fmt as [f|]; [|vm_compute; reflexivity].
+  destruct (fmt_type f) as [t|] eqn:E.
+  - unfold base_ty. rewrite E. unfold fmt_type in E.
+    repeat match type of E with
+    | (if String.eqb f ?s then _ else _) = _ =>
+        destruct (String.eqb_spec f s) as [->|_]; [inversion E; vm_compute; reflexivity|]
+    end.
+    discriminate E.
+  - unfold base_ty. rewrite E. unfold choose_integer_Z.
+    rewrite (fmt_type_none_find _ E). unfold zgeneral. cbn [no_bounds znorm_min znorm_max zb_min zb_emin zb_max zb_emax zdefault_in zfit_type].
+    rewrite (fmt_type_none_not_u64 _ E). reflexivity.
 Qed.
